@@ -982,7 +982,13 @@ class TestResult(unittest.TestResult):
         # A test can produce several result events (e.g. several failing
         # subtests, or an error in the test and another one in tearDown):
         # only the first one finds the buffers installed.
-        if self.options.buffer and self._std_streams_buffered:
+        # A test may also have put a capture stream back itself (saved in
+        # ``setUp``, restored in ``tearDown``) after a result event had
+        # already restored the real ones.
+        if self.options.buffer and self._stdout_buffer is not None and (
+                self._std_streams_buffered or
+                sys.stdout is self._stdout_buffer or
+                sys.stderr is self._stderr_buffer):
             self._std_streams_buffered = False
             stdout = self._stdout_buffer.getvalue()
             stderr = self._stderr_buffer.getvalue()
